@@ -47,6 +47,9 @@ var kwTable = map[string]kwSpec{
 	"ReadOnly":      {[]string{"ReadOnly"}, nil, nil},
 }
 
+// keywords whose template field is a pointer (or slice): declared ⇔ non-empty
+var presenceGuarded = map[string]bool{"Maximum": true, "Minimum": true, "MultipleOf": true, "MaxLength": true, "MinLength": true, "MaxItems": true, "MinItems": true, "MaxProperties": true, "MinProperties": true}
+
 func keywordOfCallee(pkg, fn string) string {
 	if pkg == "errors" {
 		switch fn {
@@ -149,6 +152,34 @@ func checkValidationEmitters(c *Ctx, rule string, ev *tmpl.Evaluator, validatePk
 				}
 				guarded = all
 			}
+			// a bound is enforced whenever it is declared: its guard is a presence test of the (pointer-
+			// valued) field itself, not a test of its value (`gt0 .MaxItems` would drop `maxItems: 0`)
+			if guarded && presenceGuarded[kw] {
+				byPresence := false
+				check := func(gs []tmpl.Guard) {
+					for _, g := range gs {
+						if g.Kind != "if" && g.Kind != "with" {
+							continue
+						}
+						atoms := map[string]bool{}
+						tmpl.ParseCond(g.Pipe).Atoms(atoms)
+						for a := range atoms {
+							for _, gf := range spec.guardFields {
+								if a == "."+gf || strings.HasSuffix(a, "."+gf) && strings.HasPrefix(a, ".") && !strings.Contains(a, " ") {
+									byPresence = true
+								}
+							}
+						}
+					}
+				}
+				check(oc.Guards)
+				for _, cs := range callers[name] {
+					check(cs.Guards)
+				}
+				if !byPresence {
+					guarded = false
+				}
+			}
 			if kw == "Required" || kw == "ReadOnly" || kw == "Format" {
 				// emitted under structural flags (.Required / .ReadOnly / .IsCustomFormatter) that several
 				// defines test at a distance: only the argument rule applies
@@ -229,6 +260,10 @@ func checkC02(c *Ctx) {
 
 	// ---- R3 flags
 	checkValidationFlags(c, gen)
+	checkEnumCasePolarity(c, "C02.R1.enum-case", ev)
+	checkExtensionGetters(c, "C02.R3.extension-values", gen)
+	c.Rule("C02.R2.decode-keys", "a declared property is removed from the additional-properties map by its JSON name before the rest is decoded as additional properties", 2)
+	checkEmitRules(c, "C02.R2.decode-keys", ev, []emitRule{serializerRules[2]})
 	checkRequiredWiring(c, "C02.R3.flags", gen)
 	checkBoundPairShortcuts(c, gen)
 	checkMapStackLift(c, gen)
